@@ -1,8 +1,11 @@
 import XalanModel.Containers.Vector
+import XalanModel.Containers.VectorTrace
 import XalanModel.Containers.XMap
 import XalanModel.Containers.Deque
 import XalanModel.Containers.XList
+import XalanModel.Containers.PList
 import XalanModel.Containers.DOMString
+import XalanModel.Containers.DOMStringCompare
 import XalanModel.Containers.Bitmap
 import XalanModel.Containers.ObjCache
 import XalanModel.Containers.StringPool
@@ -22,12 +25,13 @@ namespace Driver.C20
 def khash (k : Nat) : Nat := k / 2
 
 structure St where
-  vecs : Array (Vec Int) := Array.replicate 4 Vec.empty
+  vecs : Array (TVec Int) := Array.replicate 4 (TVec.ofVec Vec.empty)
+  cnt : Nat × Nat × Nat × Nat := (0, 0, 0, 0)   -- element-object calls of the last request: copy-ctor, assign, dtor, other ctor
   maps : Array (XMap Nat Int) := Array.replicate 4 {}
   sets : Array (XMap Nat Int) := Array.replicate 2 {}
   deqs : Array (Deq Int) := Array.replicate 4 { blockSize := 10 }
-  lsts : Array (XL Int) := Array.replicate 3 {}
-  lnext : Nat := 0
+  pheap : PHeap Int := {}                              -- the node heap shared by all lists
+  plists : Array PL := Array.replicate 3 {}
   slots : Array (Option Nat) := Array.replicate 4 none     -- saved list iterators (node ids)
   strs : Array DStr := Array.replicate 4 {}
   bmps : Array Bitmap := Array.replicate 2 (Bitmap.new 0)
@@ -43,24 +47,35 @@ def ints (l : List String) : Option (List Int) := l.mapM String.toInt?
 def units (s : String) : Option (List Nat) :=
   if s = "-" then some [] else (s.splitOn ".").mapM String.toNat?
 
+/-- like `units`, but 0 is allowed (a `const XalanDOMChar*` buffer; the harness appends the terminator) -/
+def units0 (s : String) : Option (List Nat) :=
+  if s = "-" then some [] else (s.splitOn ".").mapM String.toNat?
+
 /- ---------------------------------------------------------------- vector -/
 
 def showVec (v : Vec Int) : String :=
   s!"{v.items.length} {v.alloc} :" ++ String.join (v.items.map fun x => s!" {x}")
 
-def getV (s : St) (i : Nat) : Vec Int := s.vecs.getD i Vec.empty
+/-- vector `i` with an empty log (the log of one request is what is counted) -/
+def getV (s : St) (i : Nat) : TVec Int := { s.vecs.getD i (TVec.ofVec Vec.empty) with tr := [] }
 
-def setV (s : St) (i : Nat) (r : Option (Vec Int)) : St × String :=
+def setV (s : St) (i : Nat) (r : Option (TVec Int)) : St × String :=
   match r with
-  | some v => ({ s with vecs := s.vecs.setIfInBounds i v }, showVec v)
+  | some t =>
+    let (c, a, d) := evCounts t.tr
+    ({ s with vecs := s.vecs.setIfInBounds i t, cnt := (c, a, d, 0) }, showVec t.v)
   | none => (s, "mem")
 
 def vecStep (s : St) : List String → St × String
   | ["new", i] => match i.toNat? with
-    | some i => setV s i (some Vec.empty)
+    | some i =>
+      let r := setV s i (some (TVec.ofVec Vec.empty))
+      ({ r.1 with cnt := (0, 0, (getV s i).v.items.length, 0) }, r.2)
     | none => (s, "bad")
   | ["newcap", i, n] => match i.toNat?, n.toNat? with
-    | some i, some n => setV s i (some (Vec.withAlloc n))
+    | some i, some n =>
+      let r := setV s i (some (TVec.ofVec (Vec.withAlloc n)))
+      ({ r.1 with cnt := (0, 0, (getV s i).v.items.length, 0) }, r.2)
     | _, _ => (s, "bad")
   | ["push", i, x] => match i.toNat?, x.toInt? with
     | some i, some x => setV s i ((getV s i).pushBack x)
@@ -69,15 +84,15 @@ def vecStep (s : St) : List String → St × String
     | some i => setV s i (getV s i).popBack
     | none => (s, "bad")
   | ["ins1", i, p, x] => match i.toNat?, p.toNat?, x.toInt? with
-    | some i, some p, some x => setV s i ((getV s i).insertOne p x)
+    | some i, some p, some x => setV s i ((getV s i).insertN p 1 x)
     | _, _, _ => (s, "bad")
   | ["insn", i, p, n, x] => match i.toNat?, p.toNat?, n.toNat?, x.toInt? with
     | some i, some p, some n, some x => setV s i ((getV s i).insertN p n x)
     | _, _, _, _ => (s, "bad")
   | ["insr", i, p, j, a, b] => match i.toNat?, p.toNat?, j.toNat?, a.toNat?, b.toNat? with
     | some i, some p, some j, some a, some b =>
-      if i = j ∨ a > b ∨ b > (getV s j).items.length then (s, "bad")
-      else setV s i ((getV s i).insertRange p (((getV s j).items.drop a).take (b - a)))
+      if i = j ∨ a > b ∨ b > (getV s j).v.items.length then (s, "bad")
+      else setV s i ((getV s i).insertRange p (((getV s j).v.items.drop a).take (b - a)))
     | _, _, _, _, _ => (s, "bad")
   | ["erase", i, a, b] => match i.toNat?, a.toNat?, b.toNat? with
     | some i, some a, some b => setV s i ((getV s i).erase a b)
@@ -93,17 +108,17 @@ def vecStep (s : St) : List String → St × String
     | none => (s, "bad")
   | ["assign", i, j, a, b] => match i.toNat?, j.toNat?, a.toNat?, b.toNat? with
     | some i, some j, some a, some b =>
-      if i = j ∨ a > b ∨ b > (getV s j).items.length then (s, "bad")
-      else setV s i ((getV s i).assign (((getV s j).items.drop a).take (b - a)))
+      if i = j ∨ a > b ∨ b > (getV s j).v.items.length then (s, "bad")
+      else setV s i ((getV s i).assign (((getV s j).v.items.drop a).take (b - a)))
     | _, _, _, _ => (s, "bad")
   | ["copy", i, j] => match i.toNat?, j.toNat? with
-    | some i, some j => if i = j then (s, showVec (getV s i)) else setV s i ((getV s i).copyAssign (getV s j))
+    | some i, some j => if i = j then (s, showVec (getV s i).v) else setV s i ((getV s i).copyAssign (getV s j).v)
     | _, _ => (s, "bad")
   | ["swap", i, j] => match i.toNat?, j.toNat? with
     | some i, some j =>
       let vi := getV s i; let vj := getV s j
       let s1 := { s with vecs := (s.vecs.setIfInBounds i vj).setIfInBounds j vi }
-      (s1, showVec vj)
+      (s1, showVec vj.v)
     | _, _ => (s, "bad")
   -- aliasing forms: the value argument is an element of the same vector
   | ["insself", i, p, n, k] => match i.toNat?, p.toNat?, n.toNat?, k.toNat? with
@@ -120,7 +135,7 @@ def vecStep (s : St) : List String → St × String
 /- ---------------------------------------------------------------- map / set -/
 
 def showMap (pre : String) (m : XMap Nat Int) : String :=
-  s!"{pre}{m.size} nb={m.buckets.length} ptr={m.pointerCount} stale={m.staleCount} free={m.free.length} :" ++
+  s!"{pre}{m.size} nb={m.buckets.length} ptr={m.pointerCount} stale={m.staleCount} free={m.free.length} bc={m.bcaps.sum} :" ++
     String.join (m.entries.map fun e => s!" {e.key}={e.val}")
 
 def getM (s : St) (i : Nat) : XMap Nat Int := s.maps.getD i {}
@@ -217,88 +232,88 @@ def deqStep (s : St) (op : String) (a : List Int) : St × String :=
 
 /- ---------------------------------------------------------------- list -/
 
-def getL (s : St) (i : Nat) : XL Int := s.lsts.getD i {}
+def getP (s : St) (i : Nat) : PL := s.plists.getD i {}
 
-/-- dump of list `i` (iterating allocates nothing), with the number of blocks all lists hold -/
+/-- dump of list `i` (pointer-level model: the chains are walked), with the number of blocks all lists hold -/
 def showLst (s : St) (i : Nat) (pre : String := "") : St × String :=
-  let l := getL s i
-  let total := s.lsts.foldl (fun acc l => acc + l.blocks) 0
-  let f := match l.front with | some x => s!"{x}" | none => "-"
-  let b := match l.back with | some x => s!"{x}" | none => "-"
-  (s, s!"{pre}{l.live.length} blocks={total} f={f} b={b} :" ++ String.join (l.toList.map fun x => s!" {x}") ++ " |" ++
-    String.join (l.toList.reverse.map fun x => s!" {x}"))
+  let l := getP s i
+  let h := s.pheap
+  let total := s.plists.foldl (fun acc l => acc + PL.blocks h l) 0
+  let fwd := PL.toList h l
+  let bwd := (PL.nodesBack h l).filterMap h.valOf
+  let f := match fwd.head? with | some x => s!"{x}" | none => "-"
+  let b := match fwd.getLast? with | some x => s!"{x}" | none => "-"
+  (s, s!"{pre}{fwd.length} blocks={total} f={f} b={b} :" ++ String.join (fwd.map fun x => s!" {x}") ++ " |" ++
+    String.join (bwd.map fun x => s!" {x}"))
 
-def setL (s : St) (i : Nat) (r : Option (XL Int)) : St × String :=
+def setP (s : St) (i : Nat) (r : Option (PHeap Int × PL)) : St × String :=
   match r with
-  | some l => showLst { s with lsts := s.lsts.setIfInBounds i l } i
+  | some (h, l) => showLst { s with pheap := h, plists := s.plists.setIfInBounds i l } i
   | none => (s, "mem")
 
-def setLN (s : St) (i : Nat) (r : Option (XL Int × Nat × Nat)) : St × String :=
-  match r with
-  | some (l, nx, _) => showLst { s with lsts := s.lsts.setIfInBounds i l, lnext := nx } i
-  | none => (s, "mem")
+def setPN (s : St) (i : Nat) (r : Option (PHeap Int × PL × Nat)) : St × String :=
+  setP s i (r.map fun q => (q.1, q.2.1))
 
-/-- position `idx` of list `l` as an iterator (idx = size is `end()`) -/
-def posAt (l : XL Int) (idx : Nat) : Option LPos :=
-  if idx = l.live.length then some .endPos else (l.live[idx]?).map fun p => .node p.1
+/-- iterator to position `idx` of list `l` (`idx = size` is `end()`, the null iterator without head) -/
+def posAt (h : PHeap Int) (l : PL) (idx : Nat) : Option Nat :=
+  let ns := PL.nodesOf h l
+  if idx = ns.length then some (PL.endPos l) else ns[idx]?
 
 def lstStep (s : St) (op : String) (a : List Int) : St × String :=
   let n (x : Int) : Nat := x.toNat
+  let h := s.pheap
   match op, a with
-  | "new", [i] => showLst { s with lsts := s.lsts.setIfInBounds (n i) {} } (n i)
-  | "pushb", [i, x] => setLN s (n i) ((getL s (n i)).pushBack s.lnext x)
-  | "pushf", [i, x] => setLN s (n i) ((getL s (n i)).pushFront s.lnext x)
-  | "popb", [i] => setL s (n i) (getL s (n i)).popBack
-  | "popf", [i] => setL s (n i) (getL s (n i)).popFront
+  | "new", [i] => showLst { s with plists := s.plists.setIfInBounds (n i) {} } (n i)
+  | "pushb", [i, x] => setPN s (n i) (PL.constructNode h (getP s (n i)) x (PL.endPos (getP s (n i))))
+  | "pushf", [i, x] => setPN s (n i) (PL.constructNode h (getP s (n i)) x (PL.beginPos h (getP s (n i))))
+  | "popb", [i] =>
+    let l := getP s (n i)
+    if l.head = 0 then (s, "mem") else setP s (n i) (PL.erase h l (h.prevOf l.head))
+  | "popf", [i] => setP s (n i) (PL.erase h (getP s (n i)) (PL.beginPos h (getP s (n i))))
   | "insat", [i, idx, x] =>
-    match posAt (getL s (n i)) (n idx) with
+    match posAt h (getP s (n i)) (n idx) with
     | none => (s, "mem")
-    | some p => setLN s (n i) ((getL s (n i)).constructNode s.lnext x p)
+    | some p => setPN s (n i) (PL.constructNode h (getP s (n i)) x p)
   | "eraseat", [i, idx] =>
-    match posAt (getL s (n i)) (n idx) with
+    match posAt h (getP s (n i)) (n idx) with
     | none => (s, "mem")
-    | some p => setL s (n i) ((getL s (n i)).erase p)
+    | some p => setP s (n i) (PL.erase h (getP s (n i)) p)
   | "save", [slot, i, idx] =>
-    match (getL s (n i)).live[n idx]? with
+    match (PL.nodesOf h (getP s (n i)))[n idx]? with
     | none => (s, "mem")
-    | some p => showLst { s with slots := s.slots.setIfInBounds (n slot) (some p.1) } (n i) s!"r={p.2} "
+    | some p => match h.valOf p with
+      | none => (s, "mem")
+      | some v => showLst { s with slots := s.slots.setIfInBounds (n slot) (some p) } (n i) s!"r={v} "
   | "deref", [slot, i] =>
     match s.slots.getD (n slot) none with
     | none => (s, "mem")
-    | some id => match (getL s (n i)).deref id with
+    | some p => match h.valOf p with
       | none => (s, "mem")
       | some x => showLst s (n i) s!"r={x} "
   | "insit", [i, slot, x] =>
     match s.slots.getD (n slot) none with
     | none => (s, "mem")
-    | some id => setLN s (n i) ((getL s (n i)).constructNode s.lnext x (.node id))
+    | some p => setPN s (n i) (PL.constructNode h (getP s (n i)) x p)
   | "eraseit", [i, slot] =>
     match s.slots.getD (n slot) none with
     | none => (s, "mem")
-    | some id => setL s (n i) ((getL s (n i)).erase (.node id))
+    | some p => setP s (n i) (PL.erase h (getP s (n i)) p)
   | "splice", [i, pidx, j, sidx] =>
-    let l := getL s (n i); let src := getL s (n j)
-    match posAt l (n pidx), src.live[n sidx]? with
-    | some p, some nd =>
-      if i = j then setL s (n i) (l.spliceSelf p nd.1)
-      else match l.spliceFrom src p nd.1 with
-        | none => (s, "mem")
-        | some (l', src') =>
-          showLst { s with lsts := (s.lsts.setIfInBounds (n i) l').setIfInBounds (n j) src' } (n i)
+    match posAt h (getP s (n i)) (n pidx), (PL.nodesOf h (getP s (n j)))[n sidx]? with
+    | some p, some t => setP s (n i) (PL.splice h (getP s (n i)) p t)
     | _, _ => (s, "mem")
   | "splicer", [i, pidx, j, x, y] =>
-    let l := getL s (n i); let src := getL s (n j)
     if i = j then (s, "bad") else
-    match posAt l (n pidx) with
-    | none => (s, "mem")
-    | some p => match l.spliceRangeFrom src p (n x) (n y) with
-      | none => (s, "mem")
-      | some (l', src') =>
-        showLst { s with lsts := (s.lsts.setIfInBounds (n i) l').setIfInBounds (n j) src' } (n i)
-  | "clear", [i] => setL s (n i) (some (getL s (n i)).clear)
+    let src := getP s (n j)
+    let ns := PL.nodesOf h src
+    if n x > n y ∨ n y > ns.length then (s, "mem") else
+    match posAt h (getP s (n i)) (n pidx), posAt h src (n x), posAt h src (n y) with
+    | some p, some f, some la => setP s (n i) (PL.spliceRange h (getP s (n i)) p f la)
+    | _, _, _ => (s, "mem")
+  | "clear", [i] => setP s (n i) (PL.clear h (getP s (n i)))
   | "swap", [i, j] =>
-    let li := getL s (n i); let lj := getL s (n j)
-    showLst { s with lsts := (s.lsts.setIfInBounds (n i) lj).setIfInBounds (n j) li } (n i)
+    let li := getP s (n i); let lj := getP s (n j)
+    showLst { s with plists := (s.plists.setIfInBounds (n i) lj).setIfInBounds (n j) li } (n i)
   | "show", [i] => showLst s (n i)
   | _, _ => (s, "bad")
 
@@ -329,6 +344,18 @@ def strStep (s : St) : List String → St × String
     | _, _ => (s, "bad")
   | ["appstr", i, j] => match i.toNat?, j.toNat? with
     | some i, some j => setStr s i ((getStr s i).append (getStr s j).chars)
+    | _, _ => (s, "bad")
+  | ["appz", i, u] => match i.toNat?, units0 u with
+    | some i, some xs => setStr s i ((getStr s i).appendZ xs)
+    | _, _ => (s, "bad")
+  | ["assignz", i, u] => match i.toNat?, units0 u with
+    | some i, some xs => setStr s i ((getStr s i).assignZ xs)
+    | _, _ => (s, "bad")
+  | ["insz", i, p, u] => match nats [i, p], units0 u with
+    | some [i, p], some xs => setStr s i ((getStr s i).insertZ p xs)
+    | _, _ => (s, "bad")
+  | ["assignp", i, u, c] => match nats [i, c], units0 u with
+    | some [i, c], some xs => setStr s i ((getStr s i).assignPtr xs c)
     | _, _ => (s, "bad")
   | ["appsub", i, j, p, cnt] => match nats [i, j, p], optCount cnt with
     | some [i, j, p], some c =>
@@ -393,11 +420,55 @@ def strStep (s : St) : List String → St × String
 
 /-- number of element objects that must be alive: every constructed cell of every container -/
 def liveCells (s : St) : Nat :=
-  s.vecs.foldl (fun n v => n + v.items.length) 0 + s.maps.foldl (fun n m => n + m.entries.length) 0 +
-  s.deqs.foldl (fun n d => n + d.toList.length) 0 + s.lsts.foldl (fun n l => n + l.live.length) 0
+  s.vecs.foldl (fun n v => n + v.v.items.length) 0 + s.maps.foldl (fun n m => n + m.entries.length) 0 +
+  s.deqs.foldl (fun n d => n + d.toList.length) 0 + s.plists.foldl (fun n l => n + (PL.nodesOf s.pheap l).length) 0
 
 def withLive (r : St × String) : St × String :=
-  if r.2 = "mem" ∨ r.2 = "bad" then r else (r.1, r.2 ++ s!" L={liveCells r.1}")
+  if r.2 = "mem" ∨ r.2 = "bad" then r
+  else
+    let (c, a, d, n) := r.1.cnt
+    (r.1, r.2 ++ s!" L={liveCells r.1} C={c} A={a} D={d} N={n}")
+
+/-- element-object calls made by a map / deque / list request (one event per element touched; see
+`design/C20.md` for the derivation from the code) -/
+def otherCounts (old new : St) (kind op : String) (a : List Int) : Nat × Nat × Nat × Nat :=
+  let n (x : Int) : Nat := x.toNat
+  let msz (s : St) (i : Int) : Nat := (s.maps.getD (n i) {}).entries.length
+  let dsz (s : St) (i : Int) : Nat := (s.deqs.getD (n i) { blockSize := 10 }).toList.length
+  let dbs (s : St) (i : Int) : Nat := (s.deqs.getD (n i) { blockSize := 10 }).blockSize
+  let lsz (s : St) (i : Int) : Nat := (PL.nodesOf s.pheap (s.plists.getD (n i) {})).length
+  match kind, op, a with
+  | "map", "new", i :: _ => (0, 0, msz old i, 0)
+  | "map", "ins", i :: _ => (msz new i - msz old i, 0, 0, 0)
+  | "map", "set", i :: _ => (0, 1, 0, msz new i - msz old i)
+  | "map", "erase", i :: _ => (0, 0, msz old i - msz new i, 0)
+  | "map", "clear", i :: _ => (0, 0, msz old i, 0)
+  | "map", "copy", [i, j] => (msz old j, 0, msz old i, 0)
+  | "map", "copyctor", [i, j] => (msz old j, 0, msz old i, 0)
+  | "deq", "new", [i, _, k] => (n k, 0, 1 + dsz old i, 1)
+  | "deq", "push", _ => (1, 0, 0, 0)
+  | "deq", "pop", _ => (0, 0, 1, 0)
+  | "deq", "resize", [i, k] => (n k - dsz old i, 0, 1 + (dsz old i - n k), 1)
+  | "deq", "clear", i :: _ => (0, 0, dsz old i, 0)
+  | "deq", "copy", [i, j] => if i = j then (0, 0, 0, 0) else (dsz old j, 0, dsz old i, 0)
+  | "deq", "copyctor", [i, j] => (dsz old j, 0, dsz old i, 0)
+  | "deq", "swap", [i, j] =>
+    if i = j ∨ dbs old i = dbs old j then (0, 0, 0, 0)
+    else (dsz old i + dsz old j, 0, dsz old i + dsz old j + 1, 1)   -- + the default value of the temporary deque
+  | "lst", "new", i :: _ => (0, 0, lsz old i, 0)
+  | "lst", "clear", i :: _ => (0, 0, lsz old i, 0)
+  | "lst", "pushb", _ => (1, 0, 0, 0)
+  | "lst", "pushf", _ => (1, 0, 0, 0)
+  | "lst", "insat", _ => (1, 0, 0, 0)
+  | "lst", "insit", _ => (1, 0, 0, 0)
+  | "lst", "popb", _ => (0, 0, 1, 0)
+  | "lst", "popf", _ => (0, 0, 1, 0)
+  | "lst", "eraseat", _ => (0, 0, 1, 0)
+  | "lst", "eraseit", _ => (0, 0, 1, 0)
+  | _, _, _ => (0, 0, 0, 0)
+
+def counted (s : St) (kind op : String) (a : List Int) (r : St × String) : St × String :=
+  withLive ({ r.1 with cnt := otherCounts s r.1 kind op a }, r.2)
 
 /- ---------------------------------------------------------------- object cache -/
 
@@ -450,6 +521,35 @@ def poolStep (s : St) : List String → St × String
     | none => (s, "bad")
   | _ => (s, "bad")
 
+/- ---------------------------------------------------------------- comparison family -/
+
+def ofUnits (xs : List Nat) : DStr := ((({} : DStr).append xs).getD {})
+
+def sgn (x : Int) : Int := if x < 0 then -1 else if x > 0 then 1 else 0
+
+def cmpStep (s : St) : List String → St × String
+  | ["compare", a, b] => match units a, units0 b with
+    | some x, some y => let v := (ofUnits x).compareZ (y ++ [0]); (s, s!"r={sgn v} v={v}")
+    | _, _ => (s, "bad")
+  | ["comparestr", a, b] => match units a, units b with
+    | some x, some y => let v := (ofUnits x).compareStr (ofUnits y); (s, s!"r={sgn v} v={v}")
+    | _, _ => (s, "bad")
+  | ["comparesub", a, p1, c1, b, c2] => match units a, nats [p1, c1], units0 b, optCount c2 with
+    | some x, some [p1, c1], some y, some c2 =>
+      let v := (ofUnits x).compareSub p1 c1 (y ++ [0]) c2
+      (s, if c2.isNone then s!"r={sgn v}" else s!"r={sgn v} v={v}")
+    | _, _, _, _ => (s, "bad")
+  | ["equals", a, b] => match units a, units b with
+    | some x, some y => (s, s!"r={if equalsUnits x y then 1 else 0}")
+    | _, _ => (s, "bad")
+  | ["eqi", a, b] => match units a, units b with
+    | some x, some y => (s, s!"r={if equalsIgnoreCaseASCII x y then 1 else 0}")
+    | _, _ => (s, "bad")
+  | ["cmpi", a, b] => match units a, units b with
+    | some x, some y => let v := compareIgnoreCaseASCII x y; (s, s!"r={sgn v} v={v}")
+    | _, _ => (s, "bad")
+  | _ => (s, "bad")
+
 /- ---------------------------------------------------------------- bitmap -/
 
 def showBmp (b : Bitmap) : String :=
@@ -473,6 +573,7 @@ def bmpStep (s : St) (op : String) (a : List Int) : St × String :=
 
 def step (s : St) : List String → St × String
   | ["reset"] => ({}, "ok")
+  | ["arith", _] => (s, "ok")      -- the integer formulas are the model; the harness checks the floating-point code against them
   | "bmp" :: op :: rest => match ints rest with
     | some a => bmpStep s op a
     | none => (s, "bad")
@@ -480,18 +581,19 @@ def step (s : St) : List String → St × String
     | some a => ocStep s op a
     | none => (s, "bad")
   | "pool" :: rest => poolStep s rest
-  | "vec" :: rest => withLive (vecStep s rest)
+  | "cmp" :: rest => cmpStep s rest
+  | "vec" :: rest => withLive (vecStep { s with cnt := (0, 0, 0, 0) } rest)
   | "map" :: op :: rest => match ints rest with
-    | some a => withLive (mapStep s op a)
+    | some a => counted s "map" op a (mapStep s op a)
     | none => (s, "bad")
   | "set" :: op :: rest => match ints rest with
     | some a => setStep s op a
     | none => (s, "bad")
   | "deq" :: op :: rest => match ints rest with
-    | some a => withLive (deqStep s op a)
+    | some a => counted s "deq" op a (deqStep s op a)
     | none => (s, "bad")
   | "lst" :: op :: rest => match ints rest with
-    | some a => withLive (lstStep s op a)
+    | some a => counted s "lst" op a (lstStep s op a)
     | none => (s, "bad")
   | "str" :: rest => strStep s rest
   | _ => (s, "bad")
